@@ -23,7 +23,8 @@ V4 = "3f7f0c5f-5d54-4292-94ea-ec1e1952be0"
 # the equivalence flag <=> strict re-parse
 MUST_REFUSE = {"ref-to-marking-flavour-name", "ref-to-extension-name", "unregistered-type", "unregistered-type+extdef-property-extension", "unregistered-type+extdef-toplevel-extension",
                "x-property", "unknown-property", "unregistered-extension", "unknown-hash", "non-vocabulary-hash", "ref-to-unregistered-type", "unregistered-member-type",
-               "custom_properties-in-json", "custom-property-in-extdef-toplevel-object"}
+               "custom_properties-in-json", "custom-property-in-extdef-toplevel-object", "extension-key-names-object-type", "extension-key-names-observable-type",
+               "extension-key-names-marking-flavour"}
 
 
 def sites(base, version, tkey):
@@ -51,6 +52,7 @@ def sites(base, version, tkey):
                 if "extensions:" + ek in sp.classes:
                     obj_site(path + (ek,), "registered-extension")
             out.append(("extensions", path, "unregistered-extension", lambda j, path=path: _set(j, path + ("x-unreg-ext",), {"a": 1})))
+            out += other_kind_keys(path, version)
         if k == "observables" and isinstance(v, dict):
             for mk in v:
                 obj_site(path + (mk,), "container-member")
@@ -69,6 +71,7 @@ def sites(base, version, tkey):
     # extensions slot absent on the base but defined for the type: inject a whole extensions dict
     c = sp.classes[tkey]
     if "extensions" in c["properties"] and "extensions" not in base:
+        out += other_kind_keys(("extensions",), version, absent=True)
         # (each merges into whatever an earlier injection of a pair already put there)
         def ext(j, k, v, **more):
             return dict(j, extensions=dict(j.get("extensions") or {}, **{k: v}), **more)
@@ -79,6 +82,19 @@ def sites(base, version, tkey):
     if c["properties"].get("objects", {}).get("kind") == "list" and isinstance(base.get("objects"), list):
         out.append(("bundle", ("objects",), "unregistered-member-type", lambda j: dict(j, objects=j["objects"] + [dict({"type": "x-unreg", "id": "x-unreg--" + V4 + "5", "created": "2016-05-12T08:17:27.000Z",
                                                                                                                           "modified": "2016-05-12T08:17:27.000Z", "foo": 1}, **({"spec_version": "2.1"} if version == "2.1" else {}))])))
+    return out
+
+
+def other_kind_keys(path, version, absent=False):
+    """extension keys that are not registered extensions but ARE names registered with the library for another kind of thing, with content valid for that class"""
+    menu = [("extension-key-names-object-type", "identity", {"name": "n", "identity_class": "individual"}), ("extension-key-names-observable-type", "url", {"value": "http://e.x/"}),
+            ("extension-key-names-marking-flavour", "tlp", {"tlp": "red"}), ("extension-key-names-marking-flavour", "statement", {"statement": "s"})]
+    out = []
+    for inj, k, body in menu:
+        if absent:
+            out.append(("extensions", path, inj, lambda j, k=k, body=body: dict(j, extensions=dict(j.get("extensions") or {}, **{k: dict(body)}))))
+        else:
+            out.append(("extensions", path, inj, lambda j, path=path, k=k, body=body: _set(j, path + (k,), dict(body))))
     return out
 
 
@@ -176,8 +192,25 @@ def judge(part, j, version, inj, case, feat, n_injections, stores):
         st = Stores.get()
         for allow in (False, True):
             mem, sink, src = st.fresh(allow)
+            from stix2 import MemorySink, MemorySource, MemoryStore
+            bj = {"type": "bundle", "id": "bundle--" + V4 + "8", "objects": [copy.deepcopy(j)]}
+            if version == "2.0":
+                bj["spec_version"] = "2.0"
+            bfile = os.path.join(st.dir, "bundle.json")
+            with open(bfile, "w") as f:
+                json.dump(bj, f)
             for sname, add in (("MemoryStore.add", lambda: mem.add(copy.deepcopy(j))), ("FileSystemSink.add(dict)", lambda: sink.add(copy.deepcopy(j))),
-                               ("FileSystemSink.add(text)", lambda: sink.add(json.dumps(j)))):
+                               ("FileSystemSink.add(text)", lambda: sink.add(json.dumps(j))),
+                               # the same content arriving in other documented forms
+                               ("MemoryStore.add(list)", lambda: mem.add([copy.deepcopy(j)])), ("MemoryStore.add(bundle-dict)", lambda: mem.add(copy.deepcopy(bj))),
+                               ("MemoryStore.add([bundle-dict])", lambda: mem.add([copy.deepcopy(bj)])), ("MemoryStore(stix_data=dict)", lambda: MemoryStore(copy.deepcopy(j), allow_custom=allow)),
+                               ("MemoryStore(stix_data=bundle-dict)", lambda: MemoryStore(copy.deepcopy(bj), allow_custom=allow)),
+                               ("MemorySource(stix_data=bundle-dict)", lambda: MemorySource(copy.deepcopy(bj), allow_custom=allow)),
+                               ("MemorySink(stix_data=[dict])", lambda: MemorySink([copy.deepcopy(j)], allow_custom=allow)),
+                               ("MemoryStore.load_from_file(bundle)", lambda: MemoryStore(allow_custom=allow).load_from_file(bfile)),
+                               ("MemorySource.load_from_file(bundle)", lambda: MemorySource(allow_custom=allow).load_from_file(bfile)),
+                               ("FileSystemSink.add(bundle-dict)", lambda: sink.add(copy.deepcopy(bj))), ("FileSystemSink.add(bundle-text)", lambda: sink.add(json.dumps(bj))),
+                               ("FileSystemSink.add(list)", lambda: sink.add([copy.deepcopy(j)]))):
                 part.evaluations += 1
                 part.transitions += 1
                 c = dict(case, entry=sname, allow_custom=allow)
@@ -189,7 +222,7 @@ def judge(part, j, version, inj, case, feat, n_injections, stores):
                 if not allow and n_injections and inj in MUST_REFUSE:
                     part.outcome("strict-store:refused" if err is not None else "strict-store:ACCEPTED")
                     if err is None:
-                        part.violation("C04/strict-store-accepts/%s/%s" % (feat, sname.split("(")[0]), "a strict store admits custom content given as dict/text", c, "refused", "stored")
+                        part.violation("C04/strict-store-accepts/%s/%s" % (feat, sname), "a strict store admits custom content given as dict/text/bundle/file", c, "refused", "stored")
                 else:
                     part.outcome("store:" + ("ok" if err is None else "refused"))
                 if err is None and sname.startswith("FileSystemSink"):
